@@ -66,7 +66,6 @@ K_MISS = "checkpoint-missing"
 K_UNEXP = "checkpoint-unexpected"
 K_MULTI = "checkpoint-multiple"
 K_DUP = "path-duplicate"
-K_NOTWRITTEN = "listed-path-never-written"
 K_RESTORE = "path-not-restorable"
 K_STATE = "restored-state-differs"
 K_RAISED = "raised"
@@ -599,10 +598,34 @@ def run_epochs(col, item, freqs, script, mode, real=False, with_std=None, tagbas
     ok = True
     for j, (key, step, inc) in enumerate(script):
         if inc:
-            target.start_new_episode()
-            target.stop_episode(inc)
+            if spy is not None:
+                spy.calls = []
+            try:
+                target.start_new_episode()
+                target.stop_episode(inc)
+            except Exception as ex:
+                col.violation(SIG.format(f"{tname}.stop_episode", K_RAISED), dict(j=j, error=repr(ex)[:300], **ctx))
+                return
             ne += 1
             ns += inc
+            if spy is not None:
+                col.tick(1)
+                want = [("start_new_episode",), ("stop_episode", inc)]
+                if spy.calls != want:
+                    kind = K_CALLS if len(spy.calls) != 2 else K_ARGS
+                    col.violation(SIG.format("LoggerList.stop_episode", kind), dict(j=j, calls=spy.calls, expected=want, **ctx))
+                    return
+            # counters of the checkpointing loggers (implicit steps are read from them)
+            for lg in (ck, sl):
+                if lg is None:
+                    continue
+                col.tick(1)
+                if lg.n_steps != ns or lg.n_episodes != ne:
+                    col.violation(
+                        SIG.format(f"{type(lg).__name__}.stop_episode", K_COUNTER),
+                        dict(j=j, n_steps=lg.n_steps, n_episodes=lg.n_episodes, expected=(ne, ns), **ctx),
+                    )
+                    return
         eff = ns if step is None else step
         assert eff >= last.get(key, 0), "harness: scripts must be non-decreasing per key"
         if real:
@@ -668,15 +691,15 @@ def run_epochs(col, item, freqs, script, mode, real=False, with_std=None, tagbas
                 col.tick(1)
                 newsaves = recs[name].saves[nsaves[name] :]
                 if sorted(os.path.normpath(p) for p in newsaves) != sorted(os.path.normpath(p) for p in new_paths) and ok:
-                    col.violation(SIG.format(entry, K_NOTWRITTEN), dict(j=j, listed=new_paths, saved=newsaves, **ctx))
+                    col.violation(SIG.format(entry, K_RESTORE), dict(j=j, why="listed path was not the path handed to the orbax save call", listed=new_paths, saved=newsaves, **ctx))
                     ok = False
             if real:
                 for p in new_paths:
                     snaps[(name, p)] = snap_now
-            # counters of the checkpointing loggers (implicit steps depend on them)
+            # record_epoch must leave the counters alone
             col.tick(1)
             if lg.n_steps != ns or lg.n_episodes != ne:
-                col.violation(SIG.format(f"{cname}.stop_episode", K_COUNTER), dict(j=j, n_steps=lg.n_steps, n_episodes=lg.n_episodes, expected=(ne, ns), **ctx))
+                col.violation(SIG.format(f"{cname}.record_epoch", K_COUNTER), dict(j=j, n_steps=lg.n_steps, n_episodes=lg.n_episodes, expected=(ne, ns), **ctx))
                 return
         if key in last:
             last[key] = eff
